@@ -47,4 +47,38 @@ PROPS = {
                                         "invalid UTF-8 is outside the String-based model: only crash-freedom is checked there"],
         "assumptions": ["the model has a panic branch wherever the Go code indexes/slices (parts[1], s.Laps[len-1], data[i]); that list was read from the four anchored files"],
     },
+    "C03": {
+        "props": "TrackVerif.Conv.PropsC03",
+        "streams": [("CV", 1200, 15000)],
+        "clauses": ["cv.convert", "cv.fix_ids", "cv.first_fix_zero", "cv.overall_distance", "cv.lap_constants", "cv.no_crash"],
+        "rule": "PRNG(seed) sessions rendered as TrackAddict logs and decoded by the real decoder: 0..7 laps, 0..25 rows per lap with arbitrary GPS-update "
+                "patterns, positions from a palette of 2..8 points (real WGS-84 inverse distances for every ordered pair are sent as the model's oracle), "
+                "with/without acceleration and OBD columns, option sets (track, vehicle override, tags, note, positioning, differential status, start date); "
+                "non-trivial = at least one converted lap; distinct by SHA-1",
+        "trusted_base": KERNEL + TIE + ["tidwall/geodesic Inverse is a parameter of the model (its real results are the oracle table)",
+                                        "math.Round / float64 arithmetic: Lean Float (host IEEE-754) in the correspondence, exact rationals in theorems"],
+        "assumptions": ["theorems quantify over an arbitrary inverse function and an arbitrary numeric structure (CNum); float rounding is not modelled in theorems",
+                        "sessions are produced by the real decoder from generated logs (shapes the decoder cannot produce are not exercised)"],
+    },
+    "C11": {
+        "props": "TrackVerif.Conv.PropsC11",
+        "streams": [("CV", 1200, 15000)],
+        "clauses": ["cv.convert", "cv.no_crash"],
+        "rule": "as C03, with OBD columns in 3 of 4 sessions, arbitrary interleavings of GPS-update and OBD-update rows, channel subsets, predictors "
+                "{default, PiecewiseLinear, PiecewiseConstant, nil}; fixed corpus: no OBD columns, never-updating OBD, a two-reading interpolation; "
+                "non-trivial = at least one converted lap",
+        "trusted_base": KERNEL + TIE + ["gonum interp.PiecewiseLinear/PiecewiseConstant are modelled (Fit panics for < 2 or non-increasing xs; Predict as read from the vendored source)",
+                                        "reflection loops of OBD.appendValues/OBD.set are modelled as 'non-nil channels in field order'"],
+        "assumptions": ["rows before the first fresh reading and channel sets that vary between rows are outside the modelled domain (driver answers SKIP)",
+                        "linear_between/linear_at_knot are proved for exact rationals"],
+    },
+    "C12": {
+        "props": "TrackVerif.Conv.PropsC12",
+        "streams": [("CV", 1000, 12000)],
+        "clauses": ["cv.shift_constant", "cv.no_crash"],
+        "rule": "metamorphic op: the same generated session converted with and without a start date (impl vs impl), D in {logged day, next day, arbitrary day}; "
+                "sessions start within 20 s of UTC midnight one time in three and arbitrary epochs one time in six; non-trivial = at least one converted lap",
+        "trusted_base": KERNEL + TIE + ["time.Time arithmetic modelled as Int nanoseconds; UTC midnight = floor to 86400 s"],
+        "assumptions": ["time zone offsets in the log do not exist in TrackAddict's 'UTC Time' column (Unix seconds)"],
+    },
 }
